@@ -216,6 +216,13 @@ class M(Model):
                             collision = None
         return {"pos": npos, "dir": nd, "carry": nc, "spos": nspos, "collision": collision}
 
+    # ---- C11: "the episode terminates on an agent collision or when the time limit is reached"
+    def early_end_explained(self, states, actions):
+        if len(states) < 2:
+            return None
+        col = self._sim(states[-2], actions[-1])["collision"]
+        return None if col is None else bool(col)
+
     def _deliveries(self, s, spos_after):
         """-> (number of requested shelves standing on goal cells after the movement phase,
         ambiguous?)  Ambiguous when an unrequested shelf stands on the other goal while one is
